@@ -52,6 +52,14 @@ unsafe impl GlobalAlloc for CountingAlloc {
     }
 }
 
+/// Allocations inside crate calls are always counted (and reported in the evidence) but they are a
+/// *violation* only for C18, which sets this flag.
+pub static JUDGE_ALLOCS: std::sync::atomic::AtomicBool = std::sync::atomic::AtomicBool::new(false);
+
+pub fn judge_allocs() -> bool {
+    JUDGE_ALLOCS.load(std::sync::atomic::Ordering::Relaxed)
+}
+
 /// Runs a call into the crate under test with the allocation counter armed.
 #[inline(always)]
 pub fn api<T>(f: impl FnOnce() -> T) -> T {
@@ -204,6 +212,10 @@ pub struct Ctx {
 impl Ctx {
     pub fn thorough(&self) -> bool {
         self.tier == Tier::Thorough && !self.reduced
+    }
+    /// C18 thorough: run the (unreduced) quick workloads of the other properties
+    pub fn thorough_c18(&self) -> bool {
+        self.tier == Tier::Thorough
     }
     /// picks by tier: reduced (C18) / quick / thorough
     pub fn pick<T>(&self, reduced: T, quick: T, thorough: T) -> T {
@@ -364,6 +376,8 @@ impl Sub {
         let a1 = allocs();
         if a1 != a0 {
             self.allocs += a1 - a0;
+        }
+        if a1 != a0 && judge_allocs() {
             self.record(
                 Fail {
                     sig: "alloc".into(),
@@ -566,7 +580,7 @@ where
                     let a1 = allocs();
                     let verdict: Result<ROutcome, Fail> = match r {
                         Ok(Ok(o)) => {
-                            if a1 != a0 {
+                            if a1 != a0 && judge_allocs() {
                                 Err(Fail {
                                     sig: "alloc".into(),
                                     detail: format!("{} heap allocation(s) inside crate calls", a1 - a0),
@@ -583,6 +597,7 @@ where
                             if !failed.get() {
                                 let mut sub = subc.borrow_mut();
                                 sub.evals += 1;
+                                sub.allocs += a1 - a0;
                                 if o.nontrivial {
                                     sub.nt_hashes.insert(o.hash);
                                 }
